@@ -1,5 +1,7 @@
 #!/usr/bin/env python3
 """Regenerate MANIFEST.json from tools/claims.json (per-property claim texts)."""
+CORPUS_NOTE = (" Every run begins with the property's corpus of reported defects (hunt/<id>/, hunt/index.json): small programs that "
+               "fail while a reported defect is present -- guards of the defects repaired in /repo, and the open findings matched by tag.")
 import json, os
 V = "/verif"
 props = [json.loads(l) for l in open(V + "/properties.jsonl")]
@@ -17,7 +19,7 @@ for p in props:
         "evidence_file": "/verif/evidence/%s.json" % p["id"],
         "replay_cmd_template": "./check %s --replay {path}" % p["id"],
         "engine": "coq-model+extraction",
-        "level_claimed": {"category": "proof", "text": c["text"], "design_ref": c.get("design_ref", "DESIGN.md section 7 " + p["id"])},
+        "level_claimed": {"category": "proof", "text": c["text"] + CORPUS_NOTE, "design_ref": c.get("design_ref", "DESIGN.md section 7 " + p["id"])},
         "level_note": c["note"],
         "technique": c.get("technique", "machine-checked proof in Coq (theorems over an executable model) + model/implementation correspondence via extraction"),
     })
